@@ -1,4 +1,354 @@
+//! C19 twins: global memory queries against a plain reference written from the property statement.
+//!
+//!   "For every set of disjoint memory segments and every address and size, a read returns the bytes stored at
+//!    that address (in the image's byte order) exactly when the whole range lies in one read-only segment,
+//!    reports 'unknown content' when it lies in one writable segment, and fails otherwise.  A string read at any
+//!    address inside a read-only segment returns the NUL-terminated string stored there, and
+//!    writability/readability queries report the flags of the segment containing the address."
+//!
+//! Twins:  c19.read (read, is_global_memory_address), c19.read_string, c19.flags (is_address_writeable,
+//! is_interval_readable, is_interval_writeable, get_ro_data_pointer_at_address).
+//! Layouts: a few hand-made ones (adjacent / gap / reversed vector order / top of the address space) and seeded
+//! random ones: 1..4 pairwise disjoint segments, gaps 0 (ADJACENT), 1, 2, 7, lengths 0..17, mixed flags, both byte
+//! orders, shuffled vector order.  Queries: all addresses within +-2 of every segment start and end.
+//! The real functions are called on `RuntimeMemoryImage` / `MemorySegment` values built with struct literals;
+//! a panic of the real function is caught and reported as observed = "panic".
+use crate::util::*;
+use cwe_checker_lib::intermediate_representation::*;
+use cwe_checker_lib::utils::binary::MemorySegment;
 use serde_json::{json, Value};
-pub fn search(_twin: &str, _case: Option<&str>, _seed: u64) -> Option<Value> { None }
-pub fn replay(_twin: &str, input: &Value) -> Value { json!({"agrees": true, "input": input, "note": "no twin"}) }
-pub fn sweep(twin: &str, _seed: u64) -> Value { json!({"twin": twin, "disagreements": 0}) }
+use std::panic::{catch_unwind, AssertUnwindSafe};
+
+#[derive(Clone, Debug)]
+struct Seg { base: u64, bytes: Vec<u8>, r: bool, w: bool, x: bool }
+#[derive(Clone, Debug)]
+struct Layout { segs: Vec<Seg>, le: bool }
+
+#[derive(Clone, Debug)]
+enum Query {
+    Read { a: u64, size: u64 },
+    IsGlobal { a: u64, width: u32 },
+    ReadString { a: u64 },
+    AddrWriteable { a: u64 },
+    IntervalReadable { a: u64, e: u64 },
+    IntervalWriteable { a: u64, e: u64 },
+    RoPtr { a: u64 },
+}
+
+fn image(l: &Layout) -> RuntimeMemoryImage {
+    RuntimeMemoryImage {
+        memory_segments: l.segs.iter().map(|s| MemorySegment {
+            bytes: s.bytes.clone(), base_address: s.base, read_flag: s.r, write_flag: s.w, execute_flag: s.x,
+        }).collect(),
+        is_little_endian: l.le,
+        is_lkm: false,
+    }
+}
+
+// ---------------- reference, from the property statement -----------------------------------------------------
+fn seg_end(s: &Seg) -> u128 { s.base as u128 + s.bytes.len() as u128 }
+/// base <= a < base + len
+fn seg_contains(s: &Seg, a: u128) -> bool { s.base as u128 <= a && a < seg_end(s) }
+/// the layout is a set of disjoint segments whose addresses are representable (adjacent segments are fine)
+fn valid(l: &Layout) -> bool {
+    for (i, s) in l.segs.iter().enumerate() {
+        if seg_end(s) > u64::MAX as u128 { return false; }
+        for t in l.segs.iter().skip(i + 1) {
+            let disjoint = s.bytes.is_empty() || t.bytes.is_empty() || seg_end(s) <= t.base as u128 || seg_end(t) <= s.base as u128;
+            if !disjoint { return false; }
+        }
+    }
+    true
+}
+/// "the segment containing the address"
+fn seg_of(l: &Layout, a: u128) -> Option<&Seg> {
+    let hits: Vec<&Seg> = l.segs.iter().filter(|s| seg_contains(s, a)).collect();
+    assert!(hits.len() <= 1, "generator produced overlapping segments");
+    hits.first().copied()
+}
+/// the segment in which the whole range [a, a+n) lies (n >= 1)
+fn range_seg(l: &Layout, a: u128, n: u128) -> Option<&Seg> {
+    seg_of(l, a).filter(|s| a + n <= seg_end(s))
+}
+/// value of a byte string in the image's byte order
+fn mem_value(bytes: &[u8], le: bool) -> u128 {
+    let mut v: u128 = 0;
+    if le { for b in bytes.iter().rev() { v = (v << 8) | *b as u128; } } else { for b in bytes.iter() { v = (v << 8) | *b as u128; } }
+    v
+}
+/// the NUL-terminated string stored at address a of segment s: None = no NUL before the segment ends
+fn cstring_at(s: &Seg, a: u128) -> Option<&[u8]> {
+    let off = (a - s.base as u128) as usize;
+    let mut k = off;
+    while k < s.bytes.len() {
+        if s.bytes[k] == 0 { return Some(&s.bytes[off..k]); }
+        k += 1;
+    }
+    None
+}
+
+fn hexbytes(b: &[u8]) -> String { b.iter().map(|x| format!("{:02x}", x)).collect() }
+fn unhexbytes(s: &str) -> Vec<u8> { (0..s.len() / 2).map(|i| u8::from_str_radix(&s[2 * i..2 * i + 2], 16).unwrap()).collect() }
+fn flags(s: &Seg) -> String { format!("{}{}{}", if s.r { 'r' } else { '-' }, if s.w { 'w' } else { '-' }, if s.x { 'x' } else { '-' }) }
+
+fn layout_json(l: &Layout) -> Value {
+    json!({"little_endian": l.le, "segments": l.segs.iter().map(|s| json!({"base": hex(s.base as u128), "bytes": hexbytes(&s.bytes), "flags": flags(s)})).collect::<Vec<_>>()})
+}
+fn layout_from(v: &Value) -> Layout {
+    Layout {
+        le: v["little_endian"].as_bool().unwrap_or(true),
+        segs: v["segments"].as_array().map(|a| a.iter().map(|s| {
+            let f = s["flags"].as_str().unwrap_or("r--").as_bytes().to_vec();
+            Seg { base: unhex(s["base"].as_str().unwrap()) as u64, bytes: unhexbytes(s["bytes"].as_str().unwrap()),
+                  r: f.first() == Some(&b'r'), w: f.get(1) == Some(&b'w'), x: f.get(2) == Some(&b'x') }
+        }).collect()).unwrap_or_default(),
+    }
+}
+fn query_json(q: &Query) -> Value {
+    match q {
+        Query::Read { a, size } => json!({"fn": "read", "address": hex(*a as u128), "size": size}),
+        Query::IsGlobal { a, width } => json!({"fn": "is_global_memory_address", "address": hex(*a as u128), "width": width}),
+        Query::ReadString { a } => json!({"fn": "read_string_until_null_terminator", "address": hex(*a as u128)}),
+        Query::AddrWriteable { a } => json!({"fn": "is_address_writeable", "address": hex(*a as u128)}),
+        Query::IntervalReadable { a, e } => json!({"fn": "is_interval_readable", "address": hex(*a as u128), "end": hex(*e as u128)}),
+        Query::IntervalWriteable { a, e } => json!({"fn": "is_interval_writeable", "address": hex(*a as u128), "end": hex(*e as u128)}),
+        Query::RoPtr { a } => json!({"fn": "get_ro_data_pointer_at_address", "address": hex(*a as u128)}),
+    }
+}
+fn query_from(v: &Value) -> Option<Query> {
+    let a = unhex(v["address"].as_str()?) as u64;
+    let e = || v["end"].as_str().map(|s| unhex(s) as u64);
+    Some(match v["fn"].as_str()? {
+        "read" => Query::Read { a, size: v["size"].as_u64()? },
+        "is_global_memory_address" => Query::IsGlobal { a, width: v["width"].as_u64()? as u32 },
+        "read_string_until_null_terminator" => Query::ReadString { a },
+        "is_address_writeable" => Query::AddrWriteable { a },
+        "is_interval_readable" => Query::IntervalReadable { a, e: e()? },
+        "is_interval_writeable" => Query::IntervalWriteable { a, e: e()? },
+        "get_ro_data_pointer_at_address" => Query::RoPtr { a },
+        _ => return None,
+    })
+}
+
+/// run the real function (panics caught); returns (observed, expected, acceptable alternatives)
+fn eval(l: &Layout, q: &Query) -> (Value, Vec<Value>) {
+    let img = image(l);
+    let addr = |a: u64| Bitvector::from_u64(a);
+    let guarded = |f: &dyn Fn() -> Value| -> Value { catch_unwind(AssertUnwindSafe(f)).unwrap_or(json!("panic")) };
+    fn flag<E>(r: Result<bool, E>) -> Value { match r { Ok(b) => json!({"Ok": b}), Err(_) => json!("Err") } }
+    match q {
+        Query::Read { a, size } => {
+            let obs = guarded(&|| match img.read(&addr(*a), ByteSize::new(*size)) {
+                Ok(None) => json!("Ok(None)"),
+                Ok(Some(v)) => json!({"width": val(&v).0, "value": hex(val(&v).1)}),
+                Err(_) => json!("Err"),
+            });
+            let exp = match range_seg(l, *a as u128, *size as u128) {
+                None => json!("Err"),
+                Some(s) if s.w => json!("Ok(None)"),
+                Some(s) => {
+                    let off = (*a - s.base) as usize;
+                    json!({"width": size * 8, "value": hex(mem_value(&s.bytes[off..off + *size as usize], l.le))})
+                }
+            };
+            (obs, vec![exp])
+        }
+        Query::IsGlobal { a, width } => {
+            let obs = guarded(&|| json!(img.is_global_memory_address(&mk(*width, *a as u128))));
+            (obs, vec![json!(range_seg(l, *a as u128, (*width as u128 + 7) / 8).is_some())])
+        }
+        Query::ReadString { a } => {
+            let obs = guarded(&|| match img.read_string_until_null_terminator(&addr(*a)) {
+                Ok(s) => json!({"Ok": hexbytes(s.as_bytes())}),
+                Err(_) => json!("Err"),
+            });
+            let mut exp = vec![];
+            match seg_of(l, *a as u128) {
+                None => exp.push(json!("Err")),
+                Some(s) => {
+                    match cstring_at(s, *a as u128) {
+                        // the function returns &str: bytes that are not UTF-8 cannot be returned
+                        Some(b) if std::str::from_utf8(b).is_ok() => exp.push(json!({"Ok": hexbytes(b)})),
+                        _ => exp.push(json!("Err")),
+                    }
+                    // the property speaks about read-only segments only: in a writable one a refusal is acceptable too
+                    if s.w && exp[0] != json!("Err") { exp.push(json!("Err")); }
+                }
+            }
+            (obs, exp)
+        }
+        Query::AddrWriteable { a } => {
+            let obs = guarded(&|| flag(img.is_address_writeable(&addr(*a))));
+            (obs, vec![match seg_of(l, *a as u128) { Some(s) => json!({"Ok": s.w}), None => json!("Err") }])
+        }
+        Query::IntervalReadable { a, e } => {
+            let obs = guarded(&|| flag(img.is_interval_readable(*a, *e)));
+            (obs, vec![match seg_of(l, *a as u128) { Some(s) if *e as u128 <= seg_end(s) => json!({"Ok": s.r}), _ => json!("Err") }])
+        }
+        Query::IntervalWriteable { a, e } => {
+            let obs = guarded(&|| flag(img.is_interval_writeable(*a, *e)));
+            (obs, vec![match seg_of(l, *a as u128) { Some(s) if *e as u128 <= seg_end(s) => json!({"Ok": s.w}), _ => json!("Err") }])
+        }
+        Query::RoPtr { a } => {
+            let obs = guarded(&|| match img.get_ro_data_pointer_at_address(&addr(*a)) {
+                Ok((b, i)) => json!({"Ok": {"bytes": hexbytes(b), "index": i}}),
+                Err(_) => json!("Err"),
+            });
+            (obs, vec![match seg_of(l, *a as u128) {
+                Some(s) if !s.w => json!({"Ok": {"bytes": hexbytes(&s.bytes), "index": *a - s.base}}),
+                _ => json!("Err"),
+            }])
+        }
+    }
+}
+
+fn check(l: &Layout, q: &Query) -> Option<Value> {
+    let (obs, exp) = eval(l, q);
+    if exp.contains(&obs) { return None; }
+    let mut input = query_json(q);
+    let lay = layout_json(l);
+    input["little_endian"] = lay["little_endian"].clone();
+    input["segments"] = lay["segments"].clone();
+    Some(json!({"input": input, "observed": obs, "expected": if exp.len() == 1 { exp[0].clone() } else { json!({"one_of": exp}) }}))
+}
+
+// ---------------- layouts and queries ----------------------------------------------------------------------------
+fn seg(base: u64, bytes: &[u8], f: &str) -> Seg {
+    let f = f.as_bytes();
+    Seg { base, bytes: bytes.to_vec(), r: f[0] == b'r', w: f[1] == b'w', x: f[2] == b'x' }
+}
+fn fixed_layouts() -> Vec<Layout> {
+    let mut base = vec![
+        vec![seg(0x1000, b"ab\0", "r--"), seg(0x1003, b"cd\0", "r--")],                        // adjacent
+        vec![seg(0x1003, b"cd\0", "r--"), seg(0x1000, b"ab\0", "r--")],                        // adjacent, reversed vector order
+        vec![seg(0x1000, b"ab\0", "r--"), seg(0x1004, b"cd\0", "r--")],                        // gap of one byte
+        vec![seg(0x1000, b"abcd", "r-x"), seg(0x1004, b"ef\0g", "rw-"), seg(0x1008, b"\0hi\0", "r--")], // ro | rw | ro adjacent
+        vec![seg(0, b"\x01\x02\x03\x04", "r--"), seg(u64::MAX - 4, b"wxyz", "r--")],         // bottom and top of the address space
+        vec![seg(0x2000, b"", "r--"), seg(0x2000, b"xy\0", "r--")],                            // an empty segment at the start of another
+        vec![seg(0x3000, b"\x80\xff\0ok\0", "r--")],                                           // not UTF-8
+    ];
+    let mut out = vec![];
+    for segs in base.drain(..) {
+        for le in [true, false] { out.push(Layout { segs: segs.clone(), le }); }
+    }
+    out
+}
+fn random_layout(rng: &mut Rng) -> Layout {
+    const ALPHABET: &[u8] = &[0, 0, b'a', b'b', b'c', b'd', b'e', 0x7f, 0x80, 0xff, 0xc3, 0xa9];
+    let n = 1 + rng.next() % 4;
+    let starts = [0u64, 1, 0x1000, 0xffff_fff8, 0x7fff_ffff_ffff_fff8, u64::MAX - 80];
+    let mut cur = starts[(rng.next() % starts.len() as u64) as usize];
+    let mut segs = vec![];
+    for _ in 0..n {
+        let gap = [0u64, 0, 0, 1, 2, 7][(rng.next() % 6) as usize];
+        let len = match rng.next() % 16 { 0 => 0, 1 => 9 + rng.next() % 9, _ => 1 + rng.next() % 6 };
+        if cur as u128 + gap as u128 + len as u128 > u64::MAX as u128 { break; }
+        let base = cur + gap;
+        let mut bytes: Vec<u8> = (0..len).map(|_| if rng.next() % 8 == 0 { (rng.next() & 0xff) as u8 } else { ALPHABET[(rng.next() % ALPHABET.len() as u64) as usize] }).collect();
+        if len > 0 && rng.next() % 3 == 0 { let k = bytes.len() - 1; bytes[k] = b'z'; } // string running into the segment end
+        let f = rng.next();
+        segs.push(Seg { base, bytes, r: f & 1 != 0 || f & 8 != 0, w: f & 2 != 0, x: f & 4 != 0 });
+        cur = base + len;
+    }
+    // shuffle the vector order (the lookup is a linear scan)
+    for i in (1..segs.len()).rev() { let j = (rng.next() % (i as u64 + 1)) as usize; segs.swap(i, j); }
+    let l = Layout { segs, le: rng.next() % 2 == 0 };
+    assert!(valid(&l));
+    l
+}
+/// all addresses within +-2 of every segment start and end
+fn boundary_addresses(l: &Layout) -> Vec<u64> {
+    let mut v = vec![];
+    for s in &l.segs {
+        for p in [s.base as u128, seg_end(s)] {
+            for d in -2i128..=2 {
+                let a = p as i128 + d;
+                if a >= 0 && a <= u64::MAX as i128 { v.push(a as u64); }
+            }
+        }
+    }
+    v.sort();
+    v.dedup();
+    v
+}
+fn queries(twin: &str, case: Option<&str>, l: &Layout) -> Vec<Query> {
+    let addrs = boundary_addresses(l);
+    let want = |name: &str| case.map_or(true, |c| c == name);
+    let mut q = vec![];
+    for &a in &addrs {
+        match twin {
+            "c19.read" => {
+                if want("read") {
+                    let mut sizes: Vec<u64> = vec![1, 2, 3, 4, 5, 8, 16];
+                    for s in &l.segs { let n = s.bytes.len() as u64; for m in [n.saturating_sub(1), n, n + 1] { if (1..=16).contains(&m) { sizes.push(m); } } }
+                    sizes.sort(); sizes.dedup();
+                    for size in sizes { q.push(Query::Read { a, size }); }
+                }
+                if want("is_global_memory_address") {
+                    for width in [8u32, 16, 24, 32, 64] { if (a as u128) <= mask(width) { q.push(Query::IsGlobal { a, width }); } }
+                }
+            }
+            "c19.read_string" => q.push(Query::ReadString { a }),
+            "c19.flags" => {
+                if want("is_address_writeable") { q.push(Query::AddrWriteable { a }); }
+                if want("get_ro_data_pointer_at_address") { q.push(Query::RoPtr { a }); }
+                for &e in &addrs {
+                    if want("is_interval_readable") { q.push(Query::IntervalReadable { a, e }); }
+                    if want("is_interval_writeable") { q.push(Query::IntervalWriteable { a, e }); }
+                }
+            }
+            _ => {}
+        }
+    }
+    q
+}
+
+const RANDOM_LAYOUTS: usize = 4000;
+
+/// runs the whole space; returns (evaluations, disagreements, first disagreement); stops at the first one if `stop`
+fn run(twin: &str, case: Option<&str>, seed: u64, stop: bool) -> (u64, u64, Option<Value>) {
+    let hook = std::panic::take_hook();
+    std::panic::set_hook(Box::new(|_| {}));
+    let mut rng = Rng(seed);
+    let (mut evals, mut bad, mut first) = (0u64, 0u64, None);
+    let mut layouts = fixed_layouts();
+    for _ in 0..RANDOM_LAYOUTS { layouts.push(random_layout(&mut rng)); }
+    'outer: for l in &layouts {
+        debug_assert!(valid(l));
+        for q in queries(twin, case, l) {
+            evals += 1;
+            if let Some(v) = check(l, &q) {
+                bad += 1;
+                if first.is_none() { first = Some(v); }
+                if stop { break 'outer; }
+            }
+        }
+    }
+    std::panic::set_hook(hook);
+    (evals, bad, first)
+}
+
+pub fn search(twin: &str, case: Option<&str>, seed: u64) -> Option<Value> {
+    run(twin, case, seed, true).2
+}
+
+pub fn replay(twin: &str, input: &Value) -> Value {
+    let _ = twin;
+    let l = layout_from(input);
+    let q = match query_from(input) { Some(q) => q, None => return json!({"agrees": true, "input": input, "note": "unknown query"}) };
+    if !valid(&l) { return json!({"agrees": true, "input": input, "note": "layout is not a set of disjoint segments: outside the property"}); }
+    let hook = std::panic::take_hook();
+    std::panic::set_hook(Box::new(|_| {}));
+    let r = check(&l, &q);
+    std::panic::set_hook(hook);
+    match r {
+        Some(v) => json!({"agrees": false, "observed": v["observed"], "expected": v["expected"], "input": input}),
+        None => json!({"agrees": true, "input": input}),
+    }
+}
+
+/// whole search space, counting evaluations and disagreements
+pub fn sweep(twin: &str, seed: u64) -> Value {
+    let (evals, bad, first) = run(twin, None, seed, false);
+    json!({"twin": twin, "evaluations": evals, "disagreements": bad, "first": first})
+}
